@@ -41,10 +41,23 @@ def run(R):
     for mname, hook, want in (("_pause_contexts", "pause", "reverse"), ("_resume_contexts", "resume", "forward")):
         m = at.methods.get(mname)
         R.need(m is not None, "anchor vanished: AsyncTask.%s" % mname)
-        loops = [n for n in ast.walk(m.node) if isinstance(n, ast.For) and "self._contexts" in q.src(n.iter)
-                 and any(q.attr_call(c)[1] == hook for c in q.calls(n))]
-        R.need(len(loops) == 1, "idiom: %s does not call ctx.%s() in one loop over self._contexts" % (mname, hook))
-        d = loop_direction(loops[0].iter, "self._contexts")
+        loops = [n for n in ast.walk(m.node) if isinstance(n, ast.For) and any(q.attr_call(c)[1] == hook for c in q.calls(n))]
+        R.need(len(loops) == 1, "idiom: %s does not call ctx.%s() in one loop" % (mname, hook))
+        it = loops[0].iter
+        if isinstance(it, ast.Name):
+            # the sequence was put into a local first
+            vals = common.assigned_values(m.node, it.id)
+            R.need(len(vals) == 1 and vals[0][0] == "expr", "idiom: the iterated local %s of %s has several definitions" % (it.id, mname))
+            local_name = it.id
+            it = vals[0][1]
+            one_shot = isinstance(it, ast.Call) and q.call_name(it) in ("reversed", "iter", "map", "filter", "zip") or isinstance(it, ast.GeneratorExp)
+            if one_shot:
+                uses = [x for x in q.scope_nodes(m.node) if isinstance(x, ast.Name) and x.id == local_name and isinstance(x.ctx, ast.Load)]
+                R.check(len(uses) == 1, "C07.DIRECTION", m.qualname + ":one-shot", R.site(m, loops[0]),
+                        "the one-shot iterator %s is consumed exactly once (by the hook loop)" % local_name,
+                        "the one-shot iterator `%s = %s` is used %d times in %s: whatever consumes it first (e.g. a debug dump) leaves the hook loop with nothing - "
+                        "no context is %sd" % (local_name, q.src(it)[:40], len(uses), mname, hook))
+        d = loop_direction(it, "self._contexts")
         R.need(d is not None, "idiom: unrecognised iteration `%s` in %s" % (q.src(loops[0].iter), mname))
         R.check(d == want, "C07.DIRECTION", m.qualname, R.site(m, loops[0]),
                 "%s hooks run in %s entry order" % (hook, "reverse" if want == "reverse" else ""),
@@ -59,7 +72,7 @@ def run(R):
     hier = ExcHierarchy(repo)
     for mname, hook in (("_pause_contexts", "pause"), ("_resume_contexts", "resume")):
         m = at.methods[mname]
-        lp = [n for n in ast.walk(m.node) if isinstance(n, ast.For) and "self._contexts" in q.src(n.iter)][0]
+        lp = [n for n in ast.walk(m.node) if isinstance(n, ast.For) and any(q.attr_call(c)[1] == hook for c in q.calls(n))][0]
         for n, c in kit.call_sites(m, lambda c: q.attr_call(c)[1] == hook and isinstance(q.attr_call(c)[0], ast.Name) and q.attr_call(c)[0].id != "self"):
             trys = [t for t in kit.enclosing_try_handlers(c) if any(t is sub for sub in ast.walk(lp))]
             cov = [h for t in trys[:1] for h in t.handlers if kit.handler_covers(h, "Exception", hier)]
@@ -143,6 +156,13 @@ def run(R):
             "enter_context reads the active task of the thread's current scheduler at call time",
             "enter_context uses a cached scheduler/global: an override entered under another scheduler (another thread, or after scheduler.reset()) "
             "is not registered, hence not paused when its task blocks, and leaks into sibling tasks")
+    # leaving the with-block always pauses (restores the override), also by result()/GeneratorExit; contexts are only attached to
+    # the task that is really running
+    from .c06 import enter_exit_rules
+    enter_exit_rules(R, "C07")
+    from .c08 import active_own
+    active_own(R, ro, "C07.ACTIVE-OWN")
+    common.active_task_pair(R, ro, "C07.ACTIVE-PAIR")
     # ---- ESCAPE / UNWIND
     common.escape_rule(R, ro, "C07.ESCAPE", ("step", "provider", "flush"), "otherwise suspended tasks keep their overrides active")
     common.unwind_rule(R, ro, "C07.UNWIND")
